@@ -20,10 +20,24 @@ SPEC = {
 }
 
 
+def tcmp(T, op, a, b):
+    """the comparison term of the value type: IEEE comparison for float/double, integer otherwise"""
+    if rint.clean(T) in ("float", "double"):
+        return fcmp_term(op, a, b)
+    return cmp_term(op, a, b)
+
+
 def null_atoms(path, who):
     """decisions of the path about `who`.val != null"""
     out = []
     for c, taken in path.pc:
+        cl = lin(c)
+        if len(cl.terms) == 1 and cl.terms[0][0][0] == "fcmp":
+            a = cl.terms[0][0]
+            names = [x[1] for x in a[2].atoms() + a[3].atoms() if x[0] == "sym"]
+            if any(n.startswith(who + ".val") for n in names) and a[1] in ("!=", "=="):
+                out.append(taken if a[1] == "!=" else not taken)
+            continue
         for op, f in conjuncts(c):
             names = [a[1] for a in f.atoms() if a[0] == "sym"]
             if any(n.startswith(who + ".val") for n in names) and op in ("!=", "=="):
@@ -56,7 +70,7 @@ def check(chk, lib):
                         want = SPEC[op](L, R)
                         got = p.ret
                         if want is None:
-                            w = cmp_term(op, sym("lhs.val"), sym("rhs.val"))
+                            w = tcmp(T, op, sym("lhs.val"), sym("rhs.val"))
                             if got is None or lin(got) != w:
                                 errs.append("L=%s R=%s: returns %s, expected the raw comparison %s" % (L, R, show(got), show(w)))
                         else:
@@ -78,8 +92,8 @@ def check(chk, lib):
                 continue
             s = lib.summary(f)
             p = s.live[0]
-            w = cmp_term(op, sym("lhs.val"), sym("rhs.val"))
             T = ps[0]["t"].split("_base<")[1].split(",")[0]
+            w = tcmp(T, op, sym("lhs.val"), sym("rhs.val"))
             n += 1
             if len(s.live) != 1 or p.ret is None or lin(p.ret) != w:
                 chk.violation("OPT.eq", "operator" + op, where(f), "operator%s on %s returns %s, expected raw value comparison %s"
@@ -102,7 +116,7 @@ def check(chk, lib):
         if nv is None:
             chk.broke("null_value of %s not found" % D)
             continue
-        want = cmp_term("!=", sym("this.val"), nv)
+        want = tcmp(T, "!=", sym("this.val"), nv)
         is_fp = rint.clean(T) in ("float", "double")
         nan_null = any(a[0] == "call" and "quiet_NaN" in str(a[1]) for a in lin(nv).atoms()) if isinstance(nv, Lin) else False
         if got is None or lin(got) != want:
@@ -134,6 +148,7 @@ def check(chk, lib):
         for f in lib.fns(tp, "in_range"):
             n += 1
             D = (f.get("cls_targs") or ["?", "?"])[1]
+            T = (f.get("cls_targs") or ["?"])[0]
             s = lib.summary(f)
             mn = lib.method(D, "min_value", nparams=0)
             mx = lib.method(D, "max_value", nparams=0)
@@ -152,13 +167,13 @@ def check(chk, lib):
                         okp = False
                 else:
                     # returned the last comparison: must be val <= max
-                    if g != cmp_term("<=", sym("this.val"), hi):
+                    if g != tcmp(T, "<=", sym("this.val"), hi):
                         okp = False
             allc = set()
             for p in s.live:
                 for c, t in p.pc:
                     allc.add(c)
-            if cmp_term("<=", lo, sym("this.val")) not in allc:
+            if tcmp(T, "<=", lo, sym("this.val")) not in allc:
                 okp = False
             if not okp:
                 chk.violation("OPT.in_range", "in_range", where(f), "in_range of %s is not (min <= val) && (val <= max)" % D)
